@@ -25,6 +25,7 @@ func replay(c *vlib.Ctx) {
 			Type     string `json:"type"`
 			BytesHex string `json:"bytes_hex"`
 			BlockHex string `json:"block_hex"`
+			Object   string `json:"object_type"` // current content: the catalogue type of the saved object
 			History  []struct {
 				Goroutine int    `json:"goroutine"`
 				Entry     string `json:"entry"`
@@ -57,12 +58,23 @@ func replay(c *vlib.Ctx) {
 	if f.Case.Type == "PureHistory" {
 		replayPureHistory(c, k, f.Case.History)
 	}
+	// the states blocks are judged on: the era chain and the fixed behaviours
+	var hvs []harvested
+	for _, a := range sim.Chain {
+		hvs = append(hvs, harvested{a.Prev, a.Block, a.Supp, "replay"})
+	}
+	fixedBlocks, _ := runFixed(c)
+	hvs = append(hvs, fixedBlocks...)
+	var cur *current
 	t := wb.TypeByName(f.Case.Type)
 	bs, herr := hex.DecodeString(f.Case.BytesHex)
 	if t != nil && herr == nil && len(bs) > 0 {
 		ptr, _, derr, pan := t.SafeDecode(bs)
 		if derr != nil || pan != nil {
 			c.Fatal("replay: the recorded encoding does not decode: %v %v", derr, pan)
+		}
+		if f.Case.Object != "" {
+			cur = replayCurrent(c, k, f.Case.Object, ptr, eras, hvs)
 		}
 		switch v := ptr.(type) {
 		case *types.Transaction:
@@ -81,17 +93,20 @@ func replay(c *vlib.Ctx) {
 		case *types.V2Block:
 			// the block is logged against the state it names as parent only when the era chain holds that state
 			b := types.Block(*v)
-			for _, a := range sim.Chain {
-				if a.Prev.Index.ID == b.ParentID {
-					hv := harvested{a.Prev, b, a.Supp, "replay"}
+			for _, a := range hvs {
+				if a.prev.Index.ID == b.ParentID {
+					hv := harvested{a.prev, b, a.supp, "replay"}
 					k.blockLines(hv, r, true, eras, 1<<20, 2)
-					k.blockMutations(hv, r, 1<<20, &blockMutStats{byEra: map[string]map[string]int{}, patterns: map[string]string{}})
+					k.blockMutations(hv, r, 1<<20, &blockMutStats{byEra: map[string]map[string]int{}, patterns: map[string]string{}, unboundPatterns: map[string]int{}})
 				}
 			}
 		}
 	}
 	k.evaluate()
 	k.judge()
+	if cur != nil {
+		cur.report()
+	}
 	c.Count(int64(len(k.lines)), int64(len(k.lines)))
 	c.Finish()
 }
